@@ -15,6 +15,7 @@ func init() {
 			// the histories quantified over include restarts: the record must survive them
 			c.SyncOption("C03")
 			c.WhoWrites("C03")
+			c.ForkJoinRules("C03") // rule evaluation finishes (and records) before RunRules returns and the key locks are released
 			c.BadgerBufferDiscipline("C11")
 			c.EntryAlignment("C02", s, "prop")
 			c.StateStoreDiscipline("C02", s, "prop")
@@ -41,6 +42,11 @@ func init() {
 			c.ForkJoinRules("C03")
 			c.RecordBeforeApprove("C03", s, "att")
 			c.RecordBeforeApprove("C03", s, "prop")
+			// the record must be written where later requests for the same key look for it
+			c.EntryAlignment("C03", s, "att")
+			c.EntryAlignment("C03", s, "prop")
+			c.RulerKeyAgreement("C03")
+			c.SigningRootProvenance("C03")
 			c.SignIffApproved("C03", map[string]bool{"SignBeaconProposal": true, "SignBeaconAttestation": true, "SignBeaconAttestations": true})
 		},
 		Explanation: "On every path: a signature needs APPROVED; APPROVED leaves the rules only past the nil-error edge of Store/BatchStore; those return nil only as the verdict of db.Update / WriteBatch.Flush over exactly the given keys; the database is opened with SyncWrites effective and nothing else writes or deletes records. Because the argument is per path it covers every crash point. See DESIGN.md §5 C03.",
